@@ -14,7 +14,7 @@ META = {
     'level': 'other',
     'rule_text': 'rule instances: A(u^2), B(u^2) tables (tolerance-aware, A also derived from first principles), setup quantities '
                  '(u1, sigma1, alpha, sigma0), the iteration map of sigma, the three result formulas, provenance, iteration cap and '
-                 'threshold, rounding granularity, angle-argument conversion',
+                 'threshold, rounding granularity, angle-argument conversion; angular_typecheck dispatch per angle class (no dependence on the truthiness of the angle value); statelessness with memo-key analysis',
     'explanation': 'Static: vincdir is abstractly evaluated (loop summarised into its transfer function) and compared with the equations '
                    'of the GDA2020 technical manual. Decides the named necessary conditions: every constant comes from the ellipsoid of '
                    'the call, the series tables are Vincenty\'s, the iteration map and the closing formulas are the published ones, the '
